@@ -417,7 +417,53 @@ Lemma exec_seq_cons : forall f x r s,
   end.
 Proof. reflexivity. Qed.
 
+(* ---- the variant with the repair of K-C01-1: params deactivated when a template's frame is popped ---- *)
+Definition deact1 (x : entry) : entry := match x with EActive n b => EParam n b | _ => x end.
+
+Lemma deact_frame : forall F R, R <> [] -> Forall not_ctx F -> deact (F ++ ECtx :: R) = map deact1 F ++ ECtx :: R.
+Proof.
+  induction F; intros R HR HF.
+  - simpl. destruct R; [contradiction|]. reflexivity.
+  - inversion HF; subst. cbn [app deact map]. rewrite match_nonempty by (destruct F; discriminate).
+    rewrite IHF by assumption. destruct a; try contradiction; reflexivity.
+Qed.
+
+Lemma reset_params_st : forall F R g, R <> [] -> Forall not_ctx F ->
+  reset_params (st (F ++ ECtx :: R) g) = st (map deact1 F ++ ECtx :: R) g.
+Proof.
+  intros. unfold reset_params. cbn [stk csfi gsfi gmarked st]. rewrite Nat.sub_diag. cbn [skipn firstn app].
+  rewrite deact_frame by assumption. unfold st. f_equal. rewrite !app_length. rewrite map_length. reflexivity.
+Qed.
+
+Lemma deact1_not_ctx : forall F, Forall not_ctx F -> Forall not_ctx (map deact1 F).
+Proof. induction 1; simpl; constructor; auto. destruct x; simpl in *; auto. Qed.
+
+Lemma deact1_has_var : forall n F, has_var n (map deact1 F) = has_var n F.
+Proof. induction F; simpl; auto. destruct a; simpl; auto. rewrite IHF. reflexivity. Qed.
+
+Lemma deact1_pval : forall n F, pval n (map deact1 F) = pval n F.
+Proof. induction F; simpl; auto. destruct a; simpl; auto; rewrite IHF; reflexivity. Qed.
+
+Lemma deact1_loc : forall n F, Forall not_ctx F -> (forall m, has_var m F = false) -> loc n (map deact1 F) = None.
+Proof.
+  induction F; intros HF Hv; simpl; auto. inversion HF; subst.
+  assert (Hv' : forall m, has_var m F = false).
+  { intros m. specialize (Hv m). destruct a; simpl in Hv; auto. apply orb_false_iff in Hv. tauto. }
+  destruct a; simpl in *; try contradiction; auto.
+  specialize (Hv n0). rewrite N.eqb_refl in Hv. discriminate.
+Qed.
+
+Lemma TF_deact : forall F wp, TF F wp -> TF (map deact1 F) wp.
+Proof.
+  intros F wp [H0 [H1 [H2 H3]]]. repeat split.
+  - apply deact1_not_ctx; auto.
+  - intros. rewrite deact1_has_var. auto.
+  - intros. rewrite deact1_pval. auto.
+  - intros n b H. rewrite deact1_loc in H by assumption. discriminate.
+Qed.
+
 Section Main.
+  Variable rs : bool.
   Variable genv : list (N * N).
   Let GL := gseg genv.
   Let g := length GL.
@@ -472,7 +518,7 @@ Section Main.
       Good F R -> Fr F env wp ->
       ok_ins true (map fst wp) i (map fst env) = Some dn' ->
       (is_decl i = true -> frame_pushed_l e (F ++ ECtx :: R) = true) ->
-      exec_ins e i (st (F ++ ECtx :: R) g) =
+      exec_ins rs e i (st (F ++ ECtx :: R) g) =
         Some (match i with Var n b => st (EVar n b :: F ++ ECtx :: R) g | _ => st (F ++ ECtx :: R) g end,
               snd (spec_ins genv wp i env))
       /\ dn' = map fst (fst (spec_ins genv wp i env)).
@@ -484,7 +530,7 @@ Section Main.
           Good F R -> TF F wp ->
           ok_params ps [] = Some dn0 ->
           is_some (ok_seq (fun x => ok_ins true (map fst wp) x) body dn0) = true ->
-          exists F', exec_ins par i (st (F ++ ECtx :: R) g) =
+          exists F', exec_ins rs par i (st (F ++ ECtx :: R) g) =
                        Some (st (F' ++ ECtx :: R) g, snd (spec_ins genv wp i []))
                      /\ TF F' wp
     | _ => True
@@ -497,7 +543,7 @@ Section Main.
       ok_seq (fun x => ok_ins true (map fst wp) x) body (map fst env) = Some dn' ->
       (existsb is_decl body = true -> frame_pushed_l e (F ++ ECtx :: R) = true) ->
       exists V, Forall is_varE V /\
-        exec_seq (fun x => exec_ins e x) body (st (F ++ ECtx :: R) g) =
+        exec_seq (fun x => exec_ins rs e x) body (st (F ++ ECtx :: R) g) =
           Some (st (V ++ F ++ ECtx :: R) g, snd (spec_seq (fun x => spec_ins genv wp x) body env))
         /\ (existsb is_decl body = false -> V = []).
   Proof.
@@ -599,18 +645,21 @@ Section Main.
       assert (Hfp : existsb is_decl body = true -> frame_pushed_l e ((V' ++ EFrame e :: Fp') ++ ECtx :: R) = true).
       { intros _. rewrite <- app_assoc. cbn [app]. apply fp_frame_in. destruct Fp'; discriminate. }
       destruct (seq_lemma body Hb wp (bind_params wp ps []) (V' ++ EFrame e :: Fp') R e dnb HG2 C Eb Hfp) as [V2 [HV2 [Hex Hnil]]].
-      rewrite Hex. unfold end_children.
+      rewrite Hex. unfold end_template, end_children.
       replace (V2 ++ (V' ++ EFrame e :: Fp') ++ ECtx :: R) with ((V2 ++ V') ++ EFrame e :: (Fp' ++ ECtx :: R)).
       2:{ rewrite <- !app_assoc. cbn [app]. reflexivity. }
       rewrite pop_frame_st.
-      + exists Fp'. split; auto.
+      + destruct rs; cbn [andb].
+        * destruct E as [E0 [E1 E2]]. rewrite reset_params_st by assumption.
+          exists (map deact1 Fp'). split; auto. apply TF_deact. auto.
+        * exists Fp'. split; auto.
       + apply Forall_app. split; auto.
       + destruct Fp'; discriminate.
     - unfold has_decl in Ehv. apply orb_false_iff in Ehv. destruct Ehv as [E1 E2].
       destruct ps; try discriminate. cbn [exec_params bind_params fold_left]. simpl in Hokp. inversion Hokp; subst dn0.
       assert (Hfp : existsb is_decl body = true -> frame_pushed_l e (F ++ ECtx :: R) = true) by (intros X; congruence).
       destruct (seq_lemma body Hb wp [] F R e dnb HG (TF_Fr _ _ HT) Eb Hfp) as [V2 [HV2 [Hex Hnil]]].
-      rewrite Hex. rewrite (Hnil E2). cbn [end_children app]. exists F. split; auto.
+      rewrite Hex. rewrite (Hnil E2). unfold end_template. cbn [end_children app]. rewrite andb_false_r. exists F. split; auto.
   Qed.
 
   Definition okT (wp : list (N * N)) (x : ins) : bool :=
@@ -625,7 +674,7 @@ Section Main.
 
   Lemma tseq_lemma : forall ts, Forall (fun i => normalP i /\ tmplP i) ts ->
     forall wp F R par, Good F R -> TF F wp -> forallb (okT wp) ts = true ->
-    exists F', exec_seq (fun x => exec_ins par x) ts (st (F ++ ECtx :: R) g) =
+    exists F', exec_seq (fun x => exec_ins rs par x) ts (st (F ++ ECtx :: R) g) =
                  Some (st (F' ++ ECtx :: R) g, flat_map (fun x => snd (spec_ins genv wp x [])) ts)
                /\ TF F' wp.
   Proof.
@@ -728,17 +777,17 @@ Proof.
 Qed.
 
 (* (b) main statement, with the exact guard *)
-Theorem varstack_refines_lexical_env_partial_thm : forall globals root,
-  ok_root true root = true -> impl_run globals root = Some (spec_run globals root).
+Theorem varstack_refines_lexical_env_partial_thm : forall rs globals root,
+  ok_root true root = true -> impl_run rs globals root = Some (spec_run globals root).
 Proof.
-  intros globals root Hok. unfold ok_root in Hok. cbn [ok_ins forallb] in Hok.
+  intros rs globals root Hok. unfold ok_root in Hok. cbn [ok_ins forallb] in Hok.
   destruct root; try discriminate.
   destruct (ok_params ps []) as [dn0|] eqn:Ep; try discriminate.
   cbn [andb] in Hok.
   destruct (is_some (ok_seq (fun x => ok_ins true (map fst (@nil (N * N))) x) body dn0)) eqn:Eb; try discriminate.
   unfold impl_run, spec_run. rewrite impl_start_st.
   set (genv := rev globals).
-  destruct (main_lemma genv (Tmpl e ps body)) as [_ HT]. cbn [tmplP] in HT.
+  destruct (main_lemma rs genv (Tmpl e ps body)) as [_ HT]. cbn [tmplP] in HT.
   assert (HG : Good genv [] (gseg genv)).
   { repeat split. constructor. unfold gseg. destruct (map _ genv); discriminate. exists [ECtx]. reflexivity. }
   assert (HTF : TF [] []).
@@ -754,12 +803,16 @@ Definition leak_witness : ins :=
 
 Theorem varstack_refines_lexical_env_refuted_thm :
   ok_root false leak_witness = true /\
-  impl_run [(5, 100)]%N leak_witness <> Some (spec_run [(5, 100)]%N leak_witness).
+  impl_run false [(5, 100)]%N leak_witness <> Some (spec_run [(5, 100)]%N leak_witness).
 Proof. split; [reflexivity | vm_compute; discriminate]. Qed.
+
+(* with the repair the same program behaves lexically *)
+Lemma leak_witness_repaired : impl_run true [(5, 100)]%N leak_witness = Some (spec_run [(5, 100)]%N leak_witness).
+Proof. vm_compute. reflexivity. Qed.
 
 (* ---- m_currentStackFrameIndex always equals the stack size (no external setCurrentStackFrameIndex) ---- *)
 Inductive rop :=
-| RPush (e : entry) | RPop | RPopCtx | RPopFrame | RFind (n : N) (p g : bool) | RMark.
+| RPush (e : entry) | RPop | RPopCtx | RPopFrame | RFind (n : N) (p g : bool) | RMark | RReset.
 
 Definition rstep (o : rop) (s : vs) : vs :=
   match o with
@@ -769,6 +822,7 @@ Definition rstep (o : rop) (s : vs) : vs :=
   | RPopFrame => match pop_frame s with Some s' => s' | None => s end
   | RFind n p g => snd (find_entry n p g s)
   | RMark => mark_global s
+  | RReset => reset_params s
   end.
 
 Definition tracks (s : vs) : Prop := csfi s = length (stk s).
@@ -838,6 +892,19 @@ Proof.
   destruct (negb p && g && (1 <? gsfi s)); simpl; auto.
 Qed.
 
+Lemma deact_length : forall l, length (deact l) = length l.
+Proof.
+  induction l as [|x l IH]; auto. destruct l as [|y r]; auto.
+  change (deact (x :: y :: r)) with (match x with ECtx => x :: y :: r | EActive n b => EParam n b :: deact (y :: r) | _ => x :: deact (y :: r) end).
+  destruct x; cbn [length] in *; auto.
+Qed.
+
+Lemma reset_params_tracks : forall s, tracks s -> tracks (reset_params s).
+Proof.
+  unfold tracks, reset_params. intros s H. cbn [csfi stk]. rewrite H. rewrite Nat.sub_diag. cbn [skipn firstn app].
+  rewrite deact_length. reflexivity.
+Qed.
+
 Theorem csfi_tracks_size_thm : forall ops, tracks (fold_left (fun s o => rstep o s) ops vs_init).
 Proof.
   intros ops. assert (forall s, tracks s -> tracks (fold_left (fun s o => rstep o s) ops s)).
@@ -847,6 +914,7 @@ Proof.
     - apply pop_ctx_n_tracks; auto.
     - destruct (pop_frame s) eqn:E; auto. eapply pop_frame_n_tracks; eauto.
     - apply find_entry_tracks; auto.
-    - unfold mark_global. apply push_tracks. exact H. }
+    - unfold mark_global. apply push_tracks. exact H.
+    - apply reset_params_tracks; auto. }
   apply H. reflexivity.
 Qed.
